@@ -8,9 +8,12 @@ package html
 // and the result can be truncated at any byte.
 
 import (
+	"encoding/json"
 	"fmt"
 	"io"
+	"os"
 	"strings"
+	"sync"
 
 	"pgregory.net/rapid"
 	"verif/vp"
@@ -323,6 +326,44 @@ func soupGenMode(t *rapid.T, prof int, markupOnly bool) []byte {
 		s = s[:rapid.IntRange(0, len(s)).Draw(t, "trunc")]
 	}
 	return []byte(s)
+}
+
+var (
+	soupActiveOnce sync.Once
+	soupActive     map[string]bool
+)
+
+// soupKnownActive reports whether any of the comma-separated keys is an open entry
+// of KNOWN_FINDINGS.json (path in VP_KNOWN). Native fuzz targets use it to skip
+// inputs that only re-find a recorded defect, as vp.Run does for rapid cases.
+func soupKnownActive(keys string) bool {
+	if keys == "" {
+		return false
+	}
+	soupActiveOnce.Do(func() {
+		soupActive = map[string]bool{}
+		b, err := os.ReadFile(os.Getenv("VP_KNOWN"))
+		if err != nil {
+			return
+		}
+		var kf struct {
+			Findings []struct{ Key, Status string }
+		}
+		if json.Unmarshal(b, &kf) != nil {
+			return
+		}
+		for _, f := range kf.Findings {
+			if f.Status == "open" {
+				soupActive[f.Key] = true
+			}
+		}
+	})
+	for _, k := range strings.Split(keys, ",") {
+		if soupActive[k] {
+			return true
+		}
+	}
+	return false
 }
 
 // soupQ quotes b for an error message, abbreviating long inputs.
